@@ -118,13 +118,13 @@ theorem end_tag_text (n ind : Str) (kids : List Node) :
 
 /-! #### string level: the output text lexes back and re-parses to the same document -/
 
-/-- **C11 (string level, a).**  Pretty or mini formatter (normal element class, indent unit of spaces/tabs), any token
-    sequence whose plain-parser tree is a document in the strict sub-language (`FNode.Strict`: well-formed names and
+/-- **C11 (string level, a).**  Any of the four formatter classes (normal or slim element class, mini or an indent
+    unit of spaces/tabs), any token sequence whose plain-parser tree is a document in the strict sub-language (`FNode.Strict`: well-formed names and
     attribute items, text blocks that are data runs / references / comments, raw-text content free of its closing
     expression, attribute stores that are re-read unchanged), single- or multi-root (`WrapperOK`): the formatter's
     output TEXT is in the domain of the strict lexer and lexes to `docToks` — the token rendering of the decorated
     tree, each `_indent` glued to the data run before it (or a data run of its own). -/
-theorem formatter_output_lexes (cfg : Cfg) (hk : cfg.kind = .normal) (hi : IndentWS cfg) (toks : List Tok)
+theorem formatter_output_lexes (cfg : Cfg) (hi : IndentWS cfg) (toks : List Tok)
     (h : NoWrapperStart toks) (ps : St) (hp : Plain.feed toks = .ok ps)
     (n : Str) (st : AStore) (sc : Bool) (kids : List FNode)
     (hroot : ps.root = some (FNode.elem n st sc kids).toNode) (hw : WrapperOK n st sc kids)
@@ -133,16 +133,16 @@ theorem formatter_output_lexes (cfg : Cfg) (hk : cfg.kind = .normal) (hi : Inden
   have ht := format_tree cfg toks h
   rw [hp] at ht
   obtain ⟨fs, hf, hr, hd⟩ := ht
-  refine ⟨renderToks (docToks cfg ps.doctype n st sc kids), ?_, ?_⟩
+  refine ⟨renderToksY (styleOf cfg.kind) (docToks cfg ps.doctype n st sc kids), ?_, ?_⟩
   · rw [format_is_serialised_tree cfg toks fs hf, hr, hd, hroot]
     unfold docToks
     by_cases hn : n = wrapper
     · obtain ⟨_, hsc, _⟩ := hw hn
       subst hn; subst hsc
       simp only [if_true]
-      exact doc_render_multi cfg hk ps.doctype st kids hs
+      exact doc_render_multi cfg ps.doctype st kids hs
     · simp only [hn, if_false]
-      exact doc_render cfg hk ps.doctype n st sc kids hn hs
+      exact doc_render cfg ps.doctype n st sc kids hn hs
   · unfold docToks
     by_cases hn : n = wrapper
     · subst hn
@@ -161,7 +161,7 @@ theorem cskel_of_skel (a b : Node) (h : skel a = skel b) : cskel a = cskel b := 
     same elements, nesting, attribute stores and self-closing flags, references and comments verbatim, text equal
     after removing white space (`cskel`: the white-space-only blocks the `_indent`s add between elements vanish,
     an `_indent` glued to a data run is white space of that run). -/
-theorem formatter_output_reparses (cfg : Cfg) (hk : cfg.kind = .normal) (hi : IndentWS cfg) (toks : List Tok)
+theorem formatter_output_reparses (cfg : Cfg) (hi : IndentWS cfg) (toks : List Tok)
     (h : NoWrapperStart toks) (ps : St) (hp : Plain.feed toks = .ok ps)
     (n : Str) (st : AStore) (sc : Bool) (kids : List FNode)
     (hroot : ps.root = some (FNode.elem n st sc kids).toNode) (hw : WrapperOK n st sc kids)
@@ -169,7 +169,7 @@ theorem formatter_output_reparses (cfg : Cfg) (hk : cfg.kind = .normal) (hi : In
     ∃ out toks' ps', format cfg toks = .ok out ∧ lexStrict out = some toks' ∧
       Plain.feed (toks'.map Tok.ofToken) = .ok ps' ∧ ps'.doctype = ps.doctype ∧
       ps'.root.map cskel = ps.root.map cskel := by
-  obtain ⟨out, hout, hlex⟩ := formatter_output_lexes cfg hk hi toks h ps hp n st sc kids hroot hw hs hdt
+  obtain ⟨out, hout, hlex⟩ := formatter_output_lexes cfg hi toks h ps hp n st sc kids hroot hw hs hdt
   rw [hroot]
   unfold docToks at hlex
   by_cases hn : n = wrapper
@@ -220,7 +220,7 @@ def rawTree : FNode :=
 example : ∃ out toks' ps', format (mkCfg .pretty (.str (str "  ")) false) sampleToks = .ok out ∧
     lexStrict out = some toks' ∧ Plain.feed (toks'.map Tok.ofToken) = .ok ps' ∧ ps'.doctype = none ∧
     ps'.root.map cskel = some (cskel sampleTree.toNode) :=
-  formatter_output_reparses (mkCfg .pretty (.str (str "  ")) false) rfl (by decide) sampleToks (by decide)
+  formatter_output_reparses (mkCfg .pretty (.str (str "  ")) false) (by decide) sampleToks (by decide)
     ⟨[], some sampleTree.toNode, none, 0, 0⟩ (by rfl) _ _ _ _ rfl (by decide)
     (by simp only [FNode.Strict, StrictL]; decide) trivial
 
@@ -238,7 +238,7 @@ example : ∃ out toks' ps', format (mkCfg .pretty (.str (str "\t")) false) mult
     lexStrict out = some toks' ∧ Plain.feed (toks'.map Tok.ofToken) = .ok ps' ∧
     ps'.doctype = some (str "doctype html") ∧
     ps'.root.map cskel = some (cskel (FNode.elem wrapper {} false multiKids).toNode) :=
-  formatter_output_reparses (mkCfg .pretty (.str (str "\t")) false) rfl (by decide) multiToks (by decide)
+  formatter_output_reparses (mkCfg .pretty (.str (str "\t")) false) (by decide) multiToks (by decide)
     ⟨[], some (FNode.elem wrapper {} false multiKids).toNode, some (str "doctype html"), 0, 0⟩ (by rfl) _ _ _ _ rfl
     (by decide) (by simp only [multiKids, FNode.Strict, StrictL]; decide) (by decide)
 
@@ -246,18 +246,37 @@ example : ∃ out toks' ps', format (mkCfg .pretty (.str (str "\t")) false) mult
 example : ∃ out toks' ps', format (mkCfg .mini .dflt false) rawToks = .ok out ∧
     lexStrict out = some toks' ∧ Plain.feed (toks'.map Tok.ofToken) = .ok ps' ∧
     ps'.doctype = some (str "DOCTYPE html") ∧ ps'.root.map cskel = some (cskel rawTree.toNode) :=
-  formatter_output_reparses (mkCfg .mini .dflt false) rfl (by decide) rawToks (by decide)
+  formatter_output_reparses (mkCfg .mini .dflt false) (by decide) rawToks (by decide)
     ⟨[], some rawTree.toNode, some (str "DOCTYPE html"), 0, 0⟩ (by rfl) _ _ _ _ rfl (by decide)
     (by simp only [FNode.Strict, StrictL]; decide) (by decide)
+
+/-- … and by the same multi-root document under the slim classes (`<b>`, `<br/>`) -/
+example : ∃ out toks' ps', format (mkCfg .slim (.int 4) true) multiToks = .ok out ∧
+    lexStrict out = some toks' ∧ Plain.feed (toks'.map Tok.ofToken) = .ok ps' ∧
+    ps'.doctype = some (str "doctype html") ∧
+    ps'.root.map cskel = some (cskel (FNode.elem wrapper {} false multiKids).toNode) :=
+  formatter_output_reparses (mkCfg .slim (.int 4) true) (by decide) multiToks (by decide)
+    ⟨[], some (FNode.elem wrapper {} false multiKids).toNode, some (str "doctype html"), 0, 0⟩ (by rfl) _ _ _ _ rfl
+    (by decide) (by simp only [multiKids, FNode.Strict, StrictL]; decide) (by decide)
+
+/-- the output texts in question -/
+example : okIs (format (mkCfg .slim (.int 4) true) multiToks)
+    "<!doctype html>\na \n<b>x\n</b>&amp;\n<br/>" = true := by decide
+example : okIs (format (mkCfg .pretty .dflt false) rawToks)
+    "<!DOCTYPE html>\n\n<div id=\"a\" >\n  <script >if (a < b && c) { s = \"</div>\"; }\n  </script>\n  <p >x\n  </p>\n</div>"
+    = true := by decide
 
 /-!
   #### What is partial
 
-  * `reparse_partial` (not stated as a theorem): "the output *text* parses back to that tree" is
-    `Plain.feed (lex (format cfg toks)) ≈ Plain.feed toks` for the real tokenizer `lex`.  Missing: the character-level
-    lexer and its round-trip lemma on serialiser output (C01's `lexStrict (render ts) = some ts`, another group's
-    Model/Lexer), plus the fact that the white-space-only text the `_indent`s add vanishes under `skel`.  The tie
-    checks it on every case (oracle `preserves`: the real parser re-reads the real formatter's output).
+  * `formatter_output_reparses` is stated on the plain parser's *tree* of the input (`ps.root = some u.toNode`,
+    `u.Strict`), not on the input's token list: that every token list of the strict sub-language (C01's `ListOK`)
+    builds a `Strict` tree is not proved (it needs an invariant over `Plain.run` for arbitrary nesting); attribute
+    stores are assumed stable under re-reading (`mkStore st.items {} = st`, part of `Strict` — C09/C10's subject);
+    documents with the data singletons `<` / `&` as text blocks are outside (`NotSingleton`: the data rule can strip
+    the white space that kept `<` from opening markup, e.g. `<\nabc` → `<abc`, on the real library too).  The
+    comparison is by `cskel` (= `skel` + empty data blocks dropped + adjacent data blocks joined), which is what "same
+    text modulo white space" means once the `_indent`s have become text of the document.
   * C11c (`getFormattedHTML`/`getMiniHTML` = formatter ∘ `getHTML`): these two methods are compositions with the
     tokenizer in between; checked by the oracle (`convenience`) and the correspondence stream (`via: parser`).
 -/
